@@ -33,6 +33,8 @@ type Program struct {
 	loadSecs  float64
 	root      string
 	funcByKey map[string]*ssa.Function
+	effCache  map[*ssa.Function]*Effect
+	effBusy   map[*ssa.Function]bool
 }
 
 func loadProgram(root string, patterns []string) (*Program, error) {
@@ -304,6 +306,11 @@ var purePkgs = []string{"strings", "strconv", "unicode", "unicode/utf8", "unicod
 //   shallow - writes only what its arguments point to directly
 //   full    - anything (callbacks into falco code are possible)
 func (P *Program) externEffect(fn *ssa.Function, c *ssa.CallCommon) string {
+	if con := P.contractFor(fn); con != nil && con.Extern {
+		if con.has("pure") {
+			return "pure"
+		}
+	}
 	pkg := ""
 	if fn.Pkg != nil {
 		pkg = fn.Pkg.Pkg.Path()
